@@ -264,6 +264,38 @@ func RefResponder(dag *kit.DAG, has func(int) bool, skip int64) ([]RespItem, gra
 	return items, status
 }
 
+// Resp is one response of a multi-response message.
+type Resp struct {
+	ID     graphsync.RequestID
+	Items  []RespItem
+	Status graphsync.ResponseStatusCode
+}
+
+// DeliverMulti hands one message carrying several responses (in the given
+// order) to the requestor as coming from peer p.
+func (e *Env) DeliverMulti(p peer.ID, resps []Resp) {
+	var out []gsmsg.GraphSyncResponse
+	var blks []blocks.Block
+	seen := map[int]bool{}
+	for _, r := range resps {
+		var md []gsmsg.GraphSyncLinkMetadatum
+		for _, it := range r.Items {
+			act := graphsync.LinkActionMissing
+			if it.Present {
+				act = graphsync.LinkActionPresent
+			}
+			md = append(md, gsmsg.GraphSyncLinkMetadatum{Link: kit.Cid(it.Link), Action: act})
+			if it.Block && !seen[it.Link] {
+				seen[it.Link] = true
+				b, _ := blocks.NewBlockWithCid([]byte{byte(it.Link)}, kit.Cid(it.Link))
+				blks = append(blks, b)
+			}
+		}
+		out = append(out, gsmsg.NewResponse(r.ID, r.Status, md))
+	}
+	e.RM.ProcessResponses(p, out, blks)
+}
+
 // Deliver hands one response message with the given items and status to the
 // requestor as coming from peer p.
 func (e *Env) Deliver(p peer.ID, id graphsync.RequestID, items []RespItem, status graphsync.ResponseStatusCode) {
